@@ -1,0 +1,53 @@
+#ifndef CHESS_ENGINE_VERIF_HOOKS_H_
+#define CHESS_ENGINE_VERIF_HOOKS_H_
+
+// Verification hooks. Everything in here is compiled only with -DCHESSPP_VERIF;
+// without the define the engine is unchanged.
+#ifdef CHESSPP_VERIF
+
+#include <atomic>
+#include <cstdint>
+
+namespace engine
+{
+class Search;
+
+namespace verif
+{
+enum Point : int
+{
+    THREAD_START,      // search thread entered start_searching
+    GO_ENTRY,          // Search::go entered
+    GO_AFTER_INIT,     // after init_search
+    GO_AFTER_RESET,    // after the stop flag reset / start time
+    ITER_BEGIN,        // iterative deepening: new iteration
+    ITER_END,          // iterative deepening: iteration finished
+    NODE,              // Search::search entered
+    QNODE,             // Search::quiescence_search entered
+    BEFORE_BESTMOVE,   // just before "bestmove" is printed
+};
+
+using Callback = void (*)(int point, Search* search);
+
+// called at every schedule point when set
+inline std::atomic<Callback> callback{nullptr};
+
+// non-zero: Zobrist tables are filled from mt19937_64(seed) instead of random_device
+inline std::atomic<uint64_t> zobrist_seed{0};
+
+// true: the search reads virtual_elapsed_ms instead of the wall clock
+inline std::atomic<bool> virtual_clock{false};
+inline std::atomic<int64_t> virtual_elapsed_ms{0};
+
+inline void at(int point, Search* search)
+{
+    Callback cb = callback.load(std::memory_order_acquire);
+    if (cb) cb(point, search);
+}
+
+}  // namespace verif
+}  // namespace engine
+
+#endif  // CHESSPP_VERIF
+
+#endif  // CHESS_ENGINE_VERIF_HOOKS_H_
